@@ -950,11 +950,13 @@ class EventBus:
         # Always acquire the global lock (it's re-entrant across tasks)
         async with _get_global_lock():
             # Process the event
-            await self.process_event(event, timeout=timeout)
-
-            # Mark task as done only if we got it from the queue
-            if from_queue:
-                self.event_queue.task_done()
+            try:
+                await self.process_event(event, timeout=timeout)
+            finally:
+                # Mark task as done only if we got it from the queue, also when processing was
+                # interrupted (e.g. cancelled), otherwise event_queue.join() would wait forever
+                if from_queue:
+                    self.event_queue.task_done()
 
         logger.debug(f'✅ {self}.step({event}) COMPLETE')
         return event
